@@ -20,6 +20,8 @@ CONSTANTS
   MaxCtl = 2
   CtlSources <- MCSrcBoth
   MaxRebootAsks = 2
+  MaxCrashes = 0
+  RestartRuns <- MCRestartNone
   Mut = "none"
 INVARIANT NoViolation
 INVARIANT PrintDone
